@@ -592,10 +592,11 @@ const T0_MS: u64 = 1_790_000_000_000;
 fn execute(c: &Case, clock_ms: Option<u64>, ambient_off: bool) -> Dump {
     buggify::set_config(if ambient_off { FaultConfig::disabled() } else { FaultConfig::default() });
     buggify::reset_stats();
-    match clock_ms { Some(ms) => verif_clock::set(ms), None => verif_clock::clear() }
+    match clock_ms { Some(ms) => { verif_clock::set(ms); verif_clock::set_elapsed_skew(ms.saturating_sub(T0_MS).min(60_000)); } None => { verif_clock::clear(); verif_clock::set_elapsed_skew(0); } }
     let f = HARNESSES[c.h].run;
     let r = catch_unwind(AssertUnwindSafe(|| f(c.preset, c.seed, c.size)));
     verif_clock::clear();
+    verif_clock::set_elapsed_skew(0);
     let mut d = match r {
         Ok(d) => d,
         Err(p) => {
@@ -691,7 +692,7 @@ impl Property for C20 {
     fn components_stubbed(&self) -> Vec<&'static str> {
         vec![
             "workload of the library-style simulators (MultiNodeSimulation, SimulatedConnection, Simulation, ScenarioBuilder, partition tests): a SplitMix stream over the harness seed chooses SET/GET/DEL/INCR/EXPIRE/TTL/PING, partitions, heals, time steps",
-            "ProductionTimeSource wall clock during in-process executions: hook H2 pins it to a fixed instant plus a tape-chosen skew (fresh processes read the real clock)",
+            "ProductionTimeSource wall clock during in-process executions: hook H2 pins it to a fixed instant plus a tape-chosen skew (fresh processes read the real clock)", "wall-clock reads outside TimeSource (streaming ProductionClock, WriteBuffer flush timer): hook H4 adds the same tape-chosen skew to their elapsed time",
             "tokio: async harnesses run on a current-thread runtime with paused clock",
             "security::acl_dst: not compiled (cargo feature `acl` is off); code under cfg(feature = \"simulation\") is off as well",
         ]
